@@ -7,7 +7,7 @@ from props.c03 import gen_slice, py_key, ser_key
 
 RULE = ("batch size 1..4, 2..4 further modes, format classes pure TT | CP | Tucker (TT cores + factors) | TT-Tucker mix | CP-Tucker on "
         "each operand (all batch elements share the structure, entries differ); operations: torch(), construction from a dense stack "
-        "(no limit / ranks_tt / ranks_tucker / eps), +, *, scalar * and +, round_tt/round_tucker (rmax), orthogonalize(mu), indexing of "
+        "(no limit / ranks_tt / ranks_tucker / eps), +, *, scalar * and + (scalar on either side; a quarter with the special scalars 0, 0.0, 1; the result must still be a batch tensor with the same number of modes and add to the operand), round_tt/round_tucker (rmax), orthogonalize(mu), indexing of "
         "the non-batch modes (ints, slices, index arrays), selection along the batch mode (int, slice). Each batch element of the result "
         "is compared with the dense result of the same operation on that element; for +, * and indexing the element's cores are also "
         "compared with the Lean non-batch model applied to the element's cores (refinement at core level, bit-exact on the int stream). "
@@ -233,10 +233,25 @@ def run_case(ctx, case):
         c = -2.0 if exact else random.Random(case["seed"]).uniform(-2, 2)
         if op == "smul" and exact:
             c = -1.0
-        r = safe(lambda: bt * c if op == "smul" else bt + c)
+        z_ = random.Random(case["seed"] + 1).random()
+        if z_ < 0.25:          # the special scalars 0, 0.0, 1 (Python int and float), on either side
+            c = [0, 0.0, 1, 0][int(z_ * 16) % 4]
+        left = random.Random(case["seed"] + 2).random() < 0.4
+        ctx.count("scalar:%s%s" % ("zero" if c == 0 else "one" if c == 1 else "generic", ",left" if left else ""))
+        r = safe(lambda: (c * bt if left else bt * c) if op == "smul" else (c + bt if left else bt + c))
         if r[0] == "err":
             ctx.oracle("batch %s raised %s: %s" % (op, r[1], r[2]), case, cls=cls); return
-        per_elem(ctx, case, "batch %s %r" % (op, c), r[1], [d * c if op == "smul" else d + c for d in dens], cls=cls); return
+        exp_ = [d * c if op == "smul" else d + c for d in dens]
+        if not per_elem(ctx, case, "batch %s %r" % (op, c), r[1], exp_, cls=cls):
+            return
+        # the result is a stack of batch elements (same batch flag and number of modes) that combines with other batch tensors
+        if not getattr(r[1], "batch", False) or r[1].dim() != bt.dim():
+            ctx.oracle("batch %s %r: the result is not a batch tensor of %d modes any more (batch=%s, dim()=%d, shape %s)" % (
+                op, c, bt.dim(), getattr(r[1], "batch", None), r[1].dim(), tuple(r[1].shape)), case, cls=cls); return
+        r2 = safe(lambda: bt + r[1])
+        if r2[0] == "err":
+            ctx.oracle("bt + (batch %s %r) raised %s: %s" % (op, c, r2[1], r2[2]), case, cls=cls); return
+        per_elem(ctx, case, "bt + (batch %s %r)" % (op, c), r2[1], [d + e for d, e in zip(dens, exp_)], cls=cls); return
     if op in ("round_tt", "round_tucker"):
         alg, sc = case.get("alg", "svd"), case.get("scale", 1.0)
         bt2, els = bt, [x.to_tn() for x in xs]
